@@ -91,6 +91,22 @@ func gTxStatus(rt *rapid.T, label string) int {
 	return gFinalStatus(rt, label)
 }
 
+// gOpaqueVia: a well-formed via-parm (RFC 3261 20.42: SLASH and COLON allow
+// surrounding white space, sent-by may be an IPv6 reference) that this proxy's
+// decoder does not take; such an entry further down the stack is none of the
+// proxy's business and has to come out as it went in.
+func gOpaqueVia(rt *rapid.T, label string) AVia {
+	br := "z9hG4bK" + gFromAlphabet(rt, label+".br", tokAlpha, 4, 10)
+	return AVia{Raw: rapid.SampledFrom([]string{
+		"SIP/2.0/UDP [2001:db8::9]:5060;branch=" + br,
+		"SIP/2.0/TCP [2001:db8::78]:5061;branch=" + br + ";rport",
+		"SIP/2.0/UDP [::1];branch=" + br,
+		"SIP / 2.0 / UDP relay.example.net:5060;branch=" + br,
+		"SIP/2.0 /UDP relay.example.net;branch=" + br + ";ttl=1",
+		"SIP/2.0/UDP relay.example.net : 5060;branch=" + br,
+	}).Draw(rt, label+".form")}
+}
+
 // gParamList: header/URI/Via parameters. valAlpha is the value alphabet.
 func gParamList(rt *rapid.T, label string, max int, valAlpha string, reserved map[string]bool) []AParam {
 	n := rapid.IntRange(0, max).Draw(rt, label+".n")
@@ -588,15 +604,29 @@ type msgParts struct {
 	Body       []byte
 	AllowLF    bool
 	Canonical  bool // canonical names and order (no style drawing)
+	JoinOpaque bool // an undecodable Via entry may share a line with others (never the first Via line)
 }
 
 // gGroupLines splits a list into physical header lines with separators.
-func gGroupLinesVia(rt *rapid.T, label string, vs []AVia) []AHdr {
+func gGroupLinesVia(rt *rapid.T, label string, vs []AVia, joinOpaque bool) []AHdr {
 	var out []AHdr
 	for i := 0; i < len(vs); {
 		k := 1
 		if len(vs)-i > 1 {
 			k = rapid.IntRange(1, len(vs)-i).Draw(rt, label+".run")
+		}
+		// an entry the proxy cannot decode stays on a line of its own (joined with
+		// others it would make their line undecodable too, which changes what the
+		// proxy learns from the message)
+		for j := i; j < i+k && !(joinOpaque && i > 0); j++ {
+			if vs[j].Raw != "" {
+				if j == i {
+					k = 1
+				} else {
+					k = j - i
+				}
+				break
+			}
 		}
 		h := AHdr{Kind: hVia, Name: gSpell(rt, label+".name", hVia), SP: gSP(rt, label+".sp"), Vias: vs[i : i+k]}
 		for j := 1; j < k; j++ {
@@ -640,7 +670,7 @@ func assemble(rt *rapid.T, label string, p msgParts) *AMsg {
 		return []AHdr{{Kind: kind, Name: gSpell(rt, label+".name", kind), SP: gSP(rt, label+".sp"), Value: value, NAs: nas}}
 	}
 	groups := [][]AHdr{
-		gGroupLinesVia(rt, label+".via", p.Vias),
+		gGroupLinesVia(rt, label+".via", p.Vias, p.JoinOpaque),
 		gGroupLinesNA(rt, label+".route", hRoute, p.Routes),
 		gGroupLinesNA(rt, label+".rr", hRR, p.RRs),
 		single(hFrom, "", []ANameAddr{p.From}),
@@ -827,7 +857,7 @@ func restyle(rt *rapid.T, label string, m *AMsg) *AMsg {
 				j++
 			}
 			if h.Kind == hVia {
-				out = append(out, gGroupLinesVia(rt, fmt.Sprintf("%s.v%d", label, i), vias)...)
+				out = append(out, gGroupLinesVia(rt, fmt.Sprintf("%s.v%d", label, i), vias, false)...)
 			} else {
 				out = append(out, gGroupLinesNA(rt, fmt.Sprintf("%s.n%d", label, i), h.Kind, nas)...)
 			}
